@@ -582,8 +582,8 @@ func init() {
 			"R05.4 suite.Validate() and input.Validate(cfg) on the derivation's own suite/input gate all pool/HMAC use, and the suite contract (Validate()==nil ⇒ digits 4..10, hash 0..2; Config() identity) is proved by the decision-table engine for every in-module implementer; R05.5 each input field is read only under its own flag. " +
 			"Not decided: HMAC itself; equality for parser-produced names (C15).",
 		trusted:  []string{"crypto/hmac and the hashes"},
-		quick:    []Config{CfgNative},
-		thorough: []Config{CfgNative, Cfg386, CfgWasm},
+		quick:    []Config{CfgNative, CfgWasm},
+		thorough: []Config{CfgNative, CfgWasm, Cfg386},
 		run:      runC05,
 	})
 }
